@@ -277,16 +277,16 @@ contract('loader.ConfigLoader.includeConfiguration',
                      call='self._parse_resource', carries='C05,C06,C18',
                      label='fragment-read-into-the-current-section-with-the-same-definitions-from-the-normalised-url')],
          ensures=[UNCHANGED_OPEN,
-                  Clause('self.has_including and self._including == %s' % INCL, carries='C06,C07',
+                  Clause('self.has_including and self._including == %s' % INCL, carries='C06,C07,C19',
                          label='include-stack-restored')],
          raises=[Raise('ZConfig.ConfigurationError+',
                        then=[UNCHANGED_OPEN,
-                             Clause('implies(self.has_including, self._including == %s)' % INCL, carries='C06,C07',
+                             Clause('implies(self.has_including, self._including == %s)' % INCL, carries='C06,C07,C19',
                                     label='include-stack-restored-on-failure'),
                              Clause('implies(not self.has_including, not old(self.has_including))')],
                        carries='C07,C19', label='rejected'),
                  Raise('OSError', then=[UNCHANGED_OPEN,
-                                        Clause('self.has_including and self._including == %s' % INCL, carries='C06',
+                                        Clause('self.has_including and self._including == %s' % INCL, carries='C06,C19',
                                                label='include-stack-restored-on-failure')],
                        label='io-error-while-reading-a-resource (environment fault, passes through)')])
 contract('loader.ConfigLoader.startSection',
